@@ -353,6 +353,13 @@ def property_failures(runs):
                 continue
             if mode == 'set':
                 a, b = _setform(q, a), _setform(q, b)
+            if a != b and q == 'derived' and isinstance(a, list) and isinstance(b, list) and \
+                    set(a) ^ set(b) == {base['dump'].get('free')}:
+                # the free variable also has a defining equation: Variable.type is whatever Model.graph assigned LAST
+                fails.append({'key': 'permutation:derived-free-variable-with-equation:' + variant,
+                              'detail': 'permuting %s moves the free variable %s in or out of get_derived_quantities(): '
+                                        '%s vs %s' % (variant, base['dump'].get('free'), a, b)})
+                break
             if a != b:
                 fails.append({'key': 'permutation:%s:%s' % (variant, q),
                               'detail': 'permuting %s changed %s (%s): %s' % (
